@@ -99,11 +99,12 @@ type Specs struct {
 	Globals map[string][]string // pkg -> global invariants (assumed at entry)
 	TypeInv map[string][]*TypeInv
 	Files   []string
-	Assumes []string // textual list of "assume"/"trusted" occurrences
+	Assumes []string        // textual list of "assume"/"trusted" occurrences
+	Owned   map[string]bool // owned map fields: "pkg.Type.field"
 }
 
 func newSpecs() *Specs {
-	return &Specs{Funcs: map[string]*Contract{}, Pures: map[string]*PureDef{}, Globals: map[string][]string{}, TypeInv: map[string][]*TypeInv{}}
+	return &Specs{Funcs: map[string]*Contract{}, Pures: map[string]*PureDef{}, Globals: map[string][]string{}, TypeInv: map[string][]*TypeInv{}, Owned: map[string]bool{}}
 }
 
 var clauseRe = regexp.MustCompile(`^(mustfail\s+)?(requires|ensures|invariant|decreases)(\[[^\]]*\])?\s+(.*)$`)
@@ -171,6 +172,9 @@ func (sp *Specs) parseSpecFile(path, pkg string) error {
 		case strings.HasPrefix(line, "global "):
 			sp.Globals[pkg] = append(sp.Globals[pkg], strings.TrimSpace(strings.TrimPrefix(line, "global ")))
 			sp.Assumes = append(sp.Assumes, fmt.Sprintf("global invariant assumed (%s): %s", pkg, strings.TrimPrefix(line, "global ")))
+			cur = nil
+		case strings.HasPrefix(line, "owned "):
+			sp.Owned[pkg+"."+strings.TrimSpace(strings.TrimPrefix(line, "owned "))] = true
 			cur = nil
 		case strings.HasPrefix(line, "typeinv "):
 			rest := strings.TrimPrefix(line, "typeinv ")
